@@ -12,6 +12,10 @@ pub mod c09;
 pub mod c10;
 pub mod c11;
 pub mod c12;
+pub mod c13;
+pub mod c14;
+pub mod c15;
+pub mod c16;
 pub mod c18;
 pub mod c19;
 pub mod c20;
@@ -32,6 +36,11 @@ pub fn dispatch(id: &str, tier: Tier, seed: u64, rest: &[String]) -> i32 {
         "C12" => c12::main(tier, seed),
         "C20" => c20::main(tier, seed),
         "C19" => c19::main(tier, seed),
+        "C13" => c13::main(tier, seed),
+        "C14" => c14::main(tier, seed),
+        "C15" => c15::main(tier, seed),
+        "C16" => c16::main(tier, seed),
+        "srvdbg" => c13::debug_walk(seed),
         "C18" => c18::main(tier, seed),
         "C10" => c10::main(tier, seed),
         "C11" => c11::main(tier, seed),
